@@ -25,7 +25,7 @@ pub fn alg_of(name: &str) -> SigningAlg {
 }
 
 /// A signer built from tests/fixtures/certs/<alg>.{pub,pem} (no time-stamp authority).
-pub fn signer(alg: &str) -> Box<dyn Signer> {
+pub fn signer(alg: &str) -> c2pa::BoxedSigner {
     let cert = fixture(&format!("certs/{alg}.pub"));
     let key = fixture(&format!("certs/{alg}.pem"));
     c2pa::create_signer::from_keys(&cert, &key, alg_of(alg), None).expect("signer")
